@@ -94,7 +94,7 @@ def judge(chk, prop, res, stats):
                       ec.replay_obj(res, {"collision": coll, "first_build": [res["builds"][0]["real"]["instantiate"], res["builds"][0]["diffs"][:2]]}), True)
         stats["underscore_boundary_modules"] = stats.get("underscore_boundary_modules", 0) + 1
         return True
-    if any(b["diffs"] or b.get("init_diffs") for b in res["builds"]):
+    if any(ec.nan_leak_filter(res["spec"], res.get("calls_made") or [], list(b["diffs"]))[0] or b.get("init_diffs") for b in res["builds"]):
         if stats.setdefault("reported_modules", 0) >= MAX_REPORTED:
             stats["not_reported_same_run"] = stats.get("not_reported_same_run", 0) + 1      # one cause usually hits many modules
             return True
@@ -112,7 +112,10 @@ def judge(chk, prop, res, stats):
             chk.violation(key, "the C emitted by the real w2c2 for a valid module does not compile (%s): %s" % (cls, ri[1][:300]),
                           ec.replay_obj(res, {"build": b["real"]["build"][-1:], "error": ri[1]}), True)
             return True
-        diffs = list(b["diffs"]) + list(b.get("init_diffs", []))
+        diffs, nan_dropped = ec.nan_leak_filter(res["spec"], res.get("calls_made") or [], list(b["diffs"]))
+        if nan_dropped:
+            stats["nan_sign_leaks_tolerated"] = stats.get("nan_sign_leaks_tolerated", 0) + nan_dropped
+        diffs = diffs + list(b.get("init_diffs", []))
         for d in diffs[:2]:
             found = True
             call = None
@@ -248,6 +251,7 @@ def run(tier, PROP="C03"):
             "e2e_host_calls_compared": stats["host_calls"], "e2e_scripts_truncated_at_v8_only_trap": trunc,
             "e2e_outcomes": traps,
             "differing_modules_not_reported_individually": stats.get("not_reported_same_run", 0),
+            "e2e_differences_allowed_by_nan_sign_nondeterminism": stats.get("nan_sign_leaks_tolerated", 0),
             "modules_hit_by_known_finding_" + KEY_UNDERSCORE: stats.get("underscore_boundary_modules", 0),
             "e2e_option_variants": {t: sum(1 for r in results if not r.get("error") and (r["spec"].get("opt_tag") or "") == t) for t in ("-p", "-m", "-p-m")},
             "e2e_option_variants_with_tables_compared": sum(1 for r in results if not r.get("error") and r["spec"].get("opt_tag") and
@@ -293,7 +297,7 @@ def replay(path, PROP="C03"):
         if b["real"]["instantiate"][0] in ("build_error", "w2c2_error"):
             bad += 1
             print("replay %s: %r" % (res["id"], b["real"]["instantiate"]))
-        for dd in b["diffs"] + b.get("init_diffs", []):
+        for dd in ec.nan_leak_filter(res["spec"], res.get("calls_made") or [], list(b["diffs"]))[0] + b.get("init_diffs", []):
             bad += 1
             call = res["calls_made"][dd["call"]] if dd.get("call") is not None else None
             print("replay %s: %s call=%r: real %r specified %r" % (res["id"], dd["kind"], call, dd.get("real"), dd.get("v8", dd.get("spec"))))
